@@ -1,62 +1,11 @@
 import TantivyModel.Proofs.AggSpecEq
+import TantivyModel.Proofs.AggSort
 /-!
 C14 helper lemmas for the error bound of terms aggregations under segment truncation:
 insertion sort, integer spans and hulls, sums over key lists, what `termsCut` removes.
 -/
 namespace TantivyModel.Agg
 
-/-! ### insertion sort -/
-
-section sort
-variable {α : Type} (le : α → α → Bool)
-
-theorem insertBy_perm (x : α) : ∀ l : List α, (insertBy le x l).Perm (x :: l)
-  | [] => List.Perm.refl _
-  | y :: ys => by
-    unfold insertBy
-    by_cases h : le x y
-    · simp only [h, if_true]; exact List.Perm.refl _
-    · simp only [h, Bool.false_eq_true, if_false]
-      exact ((insertBy_perm x ys).cons y).trans (List.Perm.swap x y ys)
-
-theorem isort_perm : ∀ l : List α, (isort le l).Perm l
-  | [] => List.Perm.refl _
-  | x :: xs => by
-    show (insertBy le x (isort le xs)).Perm (x :: xs)
-    exact (insertBy_perm le x _).trans ((isort_perm xs).cons x)
-
-theorem insertBy_pairwise (htot : ∀ a b, le a b = true ∨ le b a = true)
-    (htrans : ∀ a b c, le a b = true → le b c = true → le a c = true) (x : α) :
-    ∀ l : List α, l.Pairwise (fun a b => le a b = true) → (insertBy le x l).Pairwise (fun a b => le a b = true)
-  | [], _ => by simp [insertBy]
-  | y :: ys, h => by
-    obtain ⟨hy, hys⟩ := List.pairwise_cons.1 h
-    unfold insertBy
-    by_cases hxy : le x y
-    · simp only [hxy, if_true]
-      refine List.pairwise_cons.2 ⟨?_, h⟩
-      intro z hz
-      rcases List.mem_cons.1 hz with rfl | hz
-      · exact hxy
-      · exact htrans _ _ _ hxy (hy z hz)
-    · simp only [hxy, Bool.false_eq_true, if_false]
-      have hyx : le y x = true := by
-        rcases htot x y with h1 | h1
-        · exact absurd h1 hxy
-        · exact h1
-      refine List.pairwise_cons.2 ⟨?_, insertBy_pairwise htot htrans x ys hys⟩
-      intro z hz
-      rcases List.mem_cons.1 ((insertBy_perm le x ys).mem_iff.1 hz) with rfl | hz
-      · exact hyx
-      · exact hy z hz
-
-theorem isort_pairwise (htot : ∀ a b, le a b = true ∨ le b a = true)
-    (htrans : ∀ a b c, le a b = true → le b c = true → le a c = true) :
-    ∀ l : List α, (isort le l).Pairwise (fun a b => le a b = true)
-  | [] => List.Pairwise.nil
-  | x :: xs => insertBy_pairwise le htot htrans x _ (isort_pairwise htot htrans xs)
-
-end sort
 
 theorem countDesc_total (a b : Int × Nat) :
     Order.le .countDesc a b = true ∨ Order.le .countDesc b a = true := by
